@@ -132,6 +132,10 @@ fn execute_found(sc: &Scenario, acc: &mut Acc) -> Result<Vec<Found>, String> {
             plans.push(p);
         }
         acc.exhaustive_within_scenario = true;
+        if super::cap_plans(&mut plans, super::plan_cap(2 * b.call.ops as usize, 3000), sc.seed) {
+            acc.exhaustive_within_scenario = false;
+            acc.hit("enumeration_capped");
+        }
     } else {
         plans.push(given_plan.clone());
     }
